@@ -1,10 +1,10 @@
 #!/usr/bin/env python3
-"""Writes seeded/<id>-{C,D}/meta.json (second round of independent seeders) from the confirmation results
+"""Writes seeded/<id>-{C,D,E,F}/meta.json (second and third round of independent seeders) from the confirmation results
 (tools/seedconfirm.sh, one json per seed) and the detection results (tools/seedrun.sh output, one txt per seed).
-usage: mkseedmeta2.py <confirm dir> <detection dir>"""
+usage: mkseedmeta2.py <confirm dir>[,<confirm dir>...] <detection dir>"""
 import json, os, re, sys
 ROOT = os.path.dirname(os.path.dirname(os.path.abspath(__file__)))
-CONF, DET = sys.argv[1], sys.argv[2]
+CONFS, DET = sys.argv[1].split(","), sys.argv[2]
 NEEDS = {
  "C01-C": "the same DenseSymShiftSolve object factorized twice (second solver / own set_shift with another shift) after a factorization that pivoted",
  "C01-D": "a user start vector that is an eigenvector to full working accuracy but not exactly (ones on a constant-row-sum matrix), and a rule that wants 0",
@@ -46,15 +46,63 @@ NEEDS = {
  "C19-D": "a second draw from the same generator object after random_vec()",
  "C20-C": "two solvers of the same type that both hit a breakdown with overlapping expand_basis() calls",
  "C20-D": "the Davidson solver with ONE SparseSymMatProd wrapper shared by concurrently running solvers (operator* on a block)",
+ # ---- round 3
+ "C01-E": "a second compute() without init() on a factorization that is already at step ncv (partly converged first call with sorting != selection, or SymEigsShiftSolver: values back-transformed twice)",
+ "C01-F": "a start vector near (1e-9) but not inside an invariant subspace, so that ||f||^2 < eps |H00| although ||f|| is far above rounding level",
+ "C02-E": "init(); compute(); compute() on a real- or complex-shift general solver (values back-transformed twice)",
+ "C02-F": "a Krylov space that becomes almost (1e-8 .. 1e-14) invariant before reaching dimension ncv: the residual is zeroed as noise",
+ "C03-E": "B-inner-product mode with B scaled / ill-conditioned, an exact breakdown, and the correction loop of expand_basis entered",
+ "C03-F": "compute(); compute() without init() on a shift-and-invert / Cayley generalized solver (values back-transformed twice)",
+ "C04-E": "SortRule::BothEnds with an odd ncv (the recommended minimum 2 nev + 1 is odd)",
+ "C04-F": "Cayley mode, a magnitude rule, generalized eigenvalues on both sides of sigma",
+ "C05-E": "NotConverging run with 0 < count < nev, a sorting that stores unconverged values before converged ones, and eigenvectors(m) with m >= count",
+ "C05-F": "general solver: init(); compute(...) with a converged value, then compute(sel, maxit = 0) without a new init()",
+ "C06-E": "GenEigsComplexShiftSolver whose compute() is rejected by the final sort (unsupported SORTING rule), then reuse of the solver / operator",
+ "C06-F": "regular-inverse mode with SparseRegularInverse: solver reuse / shared B operator, bitwise comparison",
+ "C07-E": "generalized solver with B != I, an exact breakdown, and the first Gram-Schmidt pass of expand_basis not sufficient",
+ "C07-F": "non-symmetric solver and a NEAR breakdown (start vector 1e-9 .. 1e-12 away from a small invariant subspace)",
+ "C08-E": "a two-row reflector of the double-shift class whose entries are beyond sqrt(min) / sqrt(max) of the scalar type",
+ "C08-F": "matrix_QtHQ(dest) of the tridiagonal class with a dest that already has size n x n and non-zeros outside the band",
+ "C09-E": "Francis iteration that stalls for 30 sweeps (second exceptional shift) while rows below the active window have deflated: [B4 X; 0 R]",
+ "C09-F": "one TridiagEigen object computed twice at the same size",
+ "C10-E": "a second factorization of the same size on one BKLDLT object that takes a no-pivot step where the first pivoted",
+ "C10-F": "an exactly singular shifted matrix whose zero pivot appears before the last position with a zero column under it",
+ "C11-E": "DenseSymShiftSolve (ColMajor, Lower) given a non-contiguous view: block of a bigger matrix or Map with an outer stride",
+ "C11-F": "one DenseGenComplexShiftSolve object: set_shift(a, b) followed by set_shift(a, a)",
+ "C12-E": "generalized symmetric solver (rvalue-operator constructor) with ncv > n",
+ "C12-F": "general solver, unsupported SORTING rule, run in which nothing has converged",
+ "C13-E": "ncv > 16 and exactly duplicated Ritz values (zero matrix): the sort comparator is not a strict weak order",
+ "C13-F": "a second compute() without init() on a symmetric-family solver (Ritz value array shrunk to nev by the first call)",
+ "C14-E": "general solver: fault during the re-factorization of a restart (application k >= ncv + 2), then reuse of the same solver object",
+ "C14-F": "regular-inverse mode: one CG solve of the library's B wrapper fails (the A operator returns Inf once, it does not throw)",
+ "C15-E": "LargestMagn / SmallestMagn on an indefinite matrix (a sort permutation that is not an involution)",
+ "C15-F": "compute() with a tolerance below the default 1e-10 of compute_with_guess()",
+ "C17-E": "a tight tolerance (tol * n below sqrt(eps)) on a positive definite pencil",
+ "C17-F": "a second compute() on the same LOBPCG object (warm start) with a preconditioner and 2 <= active columns < k in its first iteration",
+ "C18-E": "a rule undefined for real values together with length 0 or 1",
+ "C18-F": "SortRule::BothEnds with an odd length >= 3",
+ "C19-E": "complex scalar type (order of evaluation of two draws in one constructor call)",
+ "C19-F": "one of the 57 largest generator states (draw in (0.5, 0.5 + 2.6e-8]) for double / long double",
+ "C20-E": "solvers of one instantiation but different n in one process, the other one reaching factorize_from first, and a near-breakdown residual between eps*sqrt(n_a) and eps*sqrt(n_b)",
+ "C20-F": "two general solvers that both reach the fallback directions of expand_basis (matrices with exact zero rows) in another order than sequentially",
+}
+OUTSIDE = {
+ "C14-F": "outside the fault model of C14 (the user's operator THROWS): here it returns Inf once and the library's own B wrapper turns that into a sticky failure",
+ "C17-F": "outside the quantifier of C17 (inputs and configurations, random full-rank initial blocks): needs a second compute() on the same object",
+ "C20-E": "the concurrent, sequential and fresh-process executions agree unless a near-breakdown residual falls between two n-dependent thresholds; "
+          "the driver's inputs did not reach that window (and a fork()ed child inherits function-local statics that are already initialised)",
 }
 OTHER = {}   # sid -> [checks] when the own check misses and another catches; filled from files named <sid>@<check>.txt in DET
 n = 0
 for sid in sorted(os.listdir(os.path.join(ROOT, "seeded"))):
-    if not re.match(r"C\d\d-[CD]$", sid):
+    if not re.match(r"C\d\d-[CDEF]$", sid):
         continue
     d = os.path.join(ROOT, "seeded", sid)
     prop = sid.split("-")[0]
-    conf = json.load(open(os.path.join(CONF, sid + ".json"))) if os.path.exists(os.path.join(CONF, sid + ".json")) else {}
+    conf = {}
+    for cdir in CONFS:
+        if os.path.exists(os.path.join(cdir, sid + ".json")):
+            conf = json.load(open(os.path.join(cdir, sid + ".json")))
     det_txt = open(os.path.join(DET, sid + ".txt")).read() if os.path.exists(os.path.join(DET, sid + ".txt")) else ""
     m = re.search(r"%s %s rc=(\d+) nviol=(\d+) rules:\s*(.*)" % (sid, prop), det_txt)
     own = bool(m and m.group(1) == "1" and int(m.group(2)) > 0)
@@ -65,7 +113,7 @@ for sid in sorted(os.listdir(os.path.join(ROOT, "seeded"))):
         if mm and re.search(r"rc=1 nviol=[1-9]", open(os.path.join(DET, f)).read()):
             others.append(mm.group(1))
     meta = dict(
-        seed=sid, breaks_property=prop, round=2, author="independent sub-agent (saw only the property text and a scratch worktree)",
+        seed=sid, breaks_property=prop, round=2 if sid[-1] in "CD" else 3, author="independent sub-agent (saw only the property text and a scratch worktree)",
         needs_to_manifest=NEEDS.get(sid, ""),
         confirmed_by_me=dict(
             what_i_ran="tools/seedconfirm.sh: scratch worktree of /repo HEAD under /tmp: git apply patch.diff; cmake -G Ninja -B _build -DBUILD_TESTS=ON; cmake --build; ctest (all 28 executables); "
@@ -75,13 +123,19 @@ for sid in sorted(os.listdir(os.path.join(ROOT, "seeded"))):
             own_check="python3 tools/check.py %s --tier quick" % prop, caught_by_own_check=own, rules_that_fired=rules,
             also_or_instead_caught_by=others,
             how_run="tools/seedrun.sh %s  (scratch worktree of /repo HEAD + git apply; VERIF_REPO=<worktree> python3 tools/check.py %s --tier quick; worktree removed)" % (sid, prop)))
+    if sid in OUTSIDE and not own:
+        meta["detection"]["why_not_caught"] = OUTSIDE[sid]
+    if os.path.exists(os.path.join(d, "meta.json")):
+        oldm = json.load(open(os.path.join(d, "meta.json")))
+        if "note" in oldm:
+            meta["note"] = oldm["note"]
     json.dump(meta, open(os.path.join(d, "meta.json"), "w"), indent=1)
     n += 1
-print("meta.json written for", n, "round-2 seeds")
+print("meta.json written for", n, "round-2/3 seeds")
 # round-1 seeds: refresh the detection part from the same sweep; table of all seeds
 rows = []
 for sid in sorted(os.listdir(os.path.join(ROOT, "seeded"))):
-    if not re.match(r"C\d\d-[ABCD]$", sid):
+    if not re.match(r"C\d\d-[A-F]$", sid):
         continue
     prop = sid.split("-")[0]
     f = os.path.join(DET, sid + ".txt")
@@ -96,7 +150,7 @@ for sid in sorted(os.listdir(os.path.join(ROOT, "seeded"))):
         meta["detection"]["rules_that_fired"] = rules
         meta["detection"]["last_full_sweep"] = "tools/seedrun.sh %s against the final checks" % sid
         json.dump(meta, open(mp, "w"), indent=1)
-    rows.append((sid, "yes" if own else ("NOT RUN" if not m else "no"), ", ".join(rules)))
+    rows.append((sid, "yes" if own else ("NOT RUN" if not m else "no" + (" - " + OUTSIDE[sid] if sid in OUTSIDE else "")), ", ".join(rules)))
 with open(os.path.join(ROOT, "seeded", "DETECTION.md"), "w") as fh:
     fh.write("# Seeded changes against the final checks\n\nOne scratch worktree of /repo HEAD per seed (`tools/seedrun.sh <seed>`: git apply, `VERIF_REPO=<worktree> python3 tools/check.py <property> --tier quick`, worktree removed).\n\n")
     fh.write("| seed | caught by the property's own quick check | rules that fired |\n|---|---|---|\n")
